@@ -363,8 +363,9 @@ macro_rules! make_resolve_const_function {
                 ConstExprEnum::ConstExprIdent(ident) => *consts_unsigned
                     .get(ident)
                     .expect("Identifier existence checked during type cheking"),
-                ConstExprEnum::True | ConstExprEnum::False | ConstExprEnum::NumSigned(_, _) => {
-                    panic!("Not a signed const expr: {expr:?}")
+                ConstExprEnum::NumSigned(n, _) => *n as $const_ty,
+                ConstExprEnum::True | ConstExprEnum::False => {
+                    panic!("Not a numeric const expr: {expr:?}")
                 }
             }
         }
